@@ -102,6 +102,9 @@ type BCtx struct {
 	parity  map[string]int   // atom -> known parity
 	global  []Lin            // facts L >= 0 valid everywhere in the function (definitions)
 	minArgs map[string][]Lin // atom of a min(...) result -> its arguments
+	// safeConv: signed->unsigned conversions whose operand is proved non-negative (only those are
+	// treated as the identity; the others are opaque non-negative atoms)
+	safeConv map[*ssa.Convert]bool
 	// Assume lets a property add facts established by another rule (field invariants).
 	Assume func(c *BCtx)
 }
@@ -122,6 +125,25 @@ func NewBCtx(fn *ssa.Function) *BCtx {
 	c.stored = st
 	c.definitions()
 	c.induction()
+	// phase 2: decide which signed->unsigned conversions are value preserving, then rebuild
+	safe := map[*ssa.Convert]bool{}
+	any := false
+	for _, b := range fn.Blocks {
+		for _, in := range b.Instrs {
+			if cv, ok := in.(*ssa.Convert); ok && isIntType(cv.Type()) && isIntType(cv.X.Type()) && isUnsignedType(cv.Type()) && !isUnsignedType(cv.X.Type()) {
+				if c.ProveAt(b, c.Lin(cv.X)) {
+					safe[cv] = true
+					any = true
+				}
+			}
+		}
+	}
+	if any {
+		c2 := &BCtx{Fn: fn, classOf: map[ssa.Value]string{}, stored: st, Lower: map[string]int64{}, Upper: map[string]int64{}, parity: map[string]int{}, safeConv: safe}
+		c2.definitions()
+		c2.induction()
+		return c2
+	}
 	return c
 }
 
@@ -163,11 +185,15 @@ func (c *BCtx) class(v ssa.Value) string {
 		s = c.addrClass(v)
 	case *ssa.UnOp:
 		if x.Op == token.MUL {
-			switch x.X.(type) {
+			switch y := x.X.(type) {
 			case *ssa.FieldAddr, *ssa.IndexAddr:
 				ac := c.addrClass(x.X)
 				if c.stored != nil && !c.stored[ac] && !c.storedPrefix(ac) {
 					s = "*" + ac
+				}
+			case *ssa.FreeVar:
+				if c.stored != nil && !c.stored["fv:"+y.Name()] {
+					s = "*fv:" + y.Name()
 				}
 			}
 		}
@@ -352,6 +378,14 @@ func (c *BCtx) Lin(v ssa.Value) Lin {
 		}
 	case *ssa.Convert:
 		if isIntType(x.Type()) && isIntType(x.X.Type()) {
+			if isUnsignedType(x.Type()) && !isUnsignedType(x.X.Type()) {
+				if k, isc := ConstInt(x.X); isc && k >= 0 {
+					return konst(k)
+				}
+				if !c.safeConv[x] {
+					return atomL(x.Name()) // may wrap around: opaque (its type makes it >= 0)
+				}
+			}
 			return c.Lin(x.X)
 		}
 	case *ssa.ChangeType:
@@ -632,6 +666,85 @@ func (c *BCtx) induction() {
 		if v != inf && !unstable[k] {
 			if cur, ok := c.Lower[k]; !ok || v > cur {
 				c.Lower[k] = v
+			}
+		}
+	}
+	// counters with an equality exit: for a constant K that some value is compared with (== / !=),
+	// the greatest set S of integer phis such that every edge of a member is a constant <= K-1,
+	// another member, or member+1 arriving over an edge guarded by (member+1) != K. By induction
+	// every member is <= K-1.
+	ks := map[int64]bool{}
+	for _, b := range c.Fn.Blocks {
+		for _, in := range b.Instrs {
+			if bo, ok := in.(*ssa.BinOp); ok && (bo.Op == token.EQL || bo.Op == token.NEQ) && isIntType(bo.X.Type()) {
+				if k, isc := ConstInt(bo.Y); isc && k > 0 {
+					ks[k] = true
+				}
+			}
+		}
+	}
+	for K := range ks {
+		S := map[*ssa.Phi]bool{}
+		for _, p := range phis {
+			S[p] = true
+		}
+		for changed := true; changed; {
+			changed = false
+			for _, p := range phis {
+				if !S[p] {
+					continue
+				}
+				ok := true
+				for k, e := range p.Edges {
+					if e == ssa.Value(p) {
+						continue
+					}
+					if v, isc := ConstInt(e); isc {
+						if v > K-1 {
+							ok = false
+						}
+						continue
+					}
+					if q, isphi := e.(*ssa.Phi); isphi && S[q] {
+						continue
+					}
+					if bo, isb := e.(*ssa.BinOp); isb && bo.Op == token.ADD {
+						q, isphi := bo.X.(*ssa.Phi)
+						one, isc := ConstInt(bo.Y)
+						if isphi && S[q] && isc && one == 1 {
+							pred := p.Block().Preds[k]
+							gs := DomGuards(pred)
+							if iff, isif := pred.Instrs[len(pred.Instrs)-1].(*ssa.If); isif && pred.Succs[0] != pred.Succs[1] {
+								gs = append(gs, normGuard(Guard{iff.Cond, pred.Succs[0] == p.Block(), pred}))
+							}
+							guarded := false
+							for _, g := range gs {
+								x, op, y, cok := CmpGuard(g)
+								if kk, isk := ConstInt(y); cok && op == token.NEQ && x == ssa.Value(bo) && isk && kk == K {
+									guarded = true
+								}
+							}
+							if guarded {
+								continue
+							}
+						}
+					}
+					ok = false
+				}
+				if !ok {
+					S[p] = false
+					changed = true
+				}
+			}
+		}
+		for p, in := range S {
+			if !in {
+				continue
+			}
+			// only meaningful if the set really contains a counter (some +1 edge)
+			if cur, has := c.Upper[p.Name()]; !has || K-1 < cur {
+				c.Upper[p.Name()] = K - 1
+				c.global = append(c.global, konst(K-1).Add(atomL(p.Name()), -1))
 			}
 		}
 	}
